@@ -319,9 +319,15 @@ static int cif_container_get_item_loop_internal (
                         return CIF_OK;
                     case SQLITE_ROW:
                         sqlite3_reset(cif->get_item_loop_stmt);
+                        free(loop->category);
+                        loop->category = NULL;
                         FAIL(soft, CIF_INTERNAL_ERROR);
                     /* otherwise do nothing */
                 }
+                /* the second step failed: the category read from the first row is not handed out */
+                free(loop->category);
+                loop->category = NULL;
+                break;
             /* default: do nothing */
         }
     }  /* else fall-through / fail */
